@@ -1,25 +1,21 @@
-"""Extra module Composite — scheduling of the sub-requests of Rally's `composite` operation (runner.Composite / RequestTiming).
-
-Specified (specs/Composite/Composite.tla): `requests` is a tree of streams and operation items.  A list is scanned in the
-written order; stream items are forked as asyncio tasks, an operation item first awaits the streams forked before it, then
-takes one of `max-connections` slots and runs the timed runner; the list ends when its last streams have ended.
-Invariants (model-checked, and L1 on every recorded run of the real code): every operation item is executed exactly once on
-success (SuccessComplete/AtMostOnce); an item is sent only after everything before it in its stream (and in streams that
-had to be awaited) has been answered (Sequential); sibling streams run concurrently — nothing startable waits while a
+"""Extra module Composite: scheduling of the sub-requests of Rally's `composite` operation (runner.Composite, RequestTiming).
+Specified (specs/Composite): `requests` is a tree of streams and operation items; a list is scanned in written order, stream
+items are forked as asyncio tasks, an operation item first awaits the streams forked before it, takes one of `max-connections`
+slots and runs the timed runner; a list ends when its last streams have ended.  Invariants (TLC + L1 on every recorded run):
+on success every operation item was executed exactly once (SuccessComplete, AtMostOnce); an item is sent only after all that
+precedes it in its stream has been answered (Sequential); sibling streams run concurrently, nothing startable waits while a
 connection is free (NoIdleWaiting); never more than max-connections in flight (ConnLimit); one dependent timing per executed
-operation with its own type / start / end, returned in document order (TimingsOwn, L2: TimingsInDocOrder); an unsupported or
-malformed item is never executed and the composite raises (RejectedNeverRuns, NoSuccessOnFailure); a raising sub-request
-makes the composite raise that exception at the same instant (FailFast).  Named behaviour of the code as it is (switches in
-the model): CancelTail=FALSE — siblings awaited by the gather at the END of a list are not cancelled, they keep sending
-after the composite has raised (QuiescentAfterRaise fails, OrphansOnlyBehindTail holds); ValidateUpFront=FALSE — an
-unsupported / malformed item is only detected when the scan reaches it, after earlier requests have been sent.
+item with its own type/start/end (TimingsOwn; L2: in document order); unsupported/malformed items are never executed and a
+raising sub-request makes the composite raise that exception at once (RejectedNeverRuns, NoSuccessOnFailure, FailFast).
+Pinned code behaviour (model switches): CancelTail=FALSE: streams awaited by the gather at the END of a list are not cancelled
+and keep sending after the composite raised (QuiescentAfterRaise fails on /repo); ValidateUpFront=FALSE: rejection is lazy.
 
 Leg M   : TLC on Composite.{quick,thorough}.cfg (all trees up to 6/7 nodes, <= 2 levels of streams, <= 3 streams, <= 3 items
           per list, max-connections none/1/2/3, every completion order incl. ties, failures), the repaired variant, 2 self-tests.
 Leg S2C : TLC -simulate behaviours (trees up to 8 nodes, 3 levels) -> tree + max-connections + latency / failure per
           sub-request -> executed by the REAL runner.Composite with the real raw-request / search / sleep runners on the
-          virtual-time asyncio loop against a scripted fake client that logs every wire request.
-Leg C2S : every recorded run (S2C + seeded random deeper trees) validated by TLC against TraceComposite.tla.
+          virtual-time asyncio loop against a scripted fake client that logs every wire request, task and cancellation.
+Leg C2S : every recorded run (S2C + seeded random deeper trees) validated by TLC against TraceComposite.tla (L1 + L2).
 """
 import asyncio
 import glob
